@@ -225,8 +225,8 @@ pub fn suites() -> Vec<Suite> {
         head_len: FACTORY_HEAD,
         op_len: FACTORY_OP,
         max_ops: 14,
-        quick_cases: 4_000,
-        thorough_cases: 60_000,
+        quick_cases: 10_000,
+        thorough_cases: 150_000,
         run,
         direct: Some(direct),
         must_hit: &["reg:first-registration", "reg:re-registration", "pos:first", "pos:second", "kind:native/native", "kind:native/cw20", "size:1-9", "size:11-30", "size:31+"],
